@@ -7,10 +7,9 @@ from .internal import value_properties as _value_properties
 
 
 def _splitlines(s: str) -> list[str]:
-    lines = s.splitlines(keepends=True)
-    if not lines or lines[-1].endswith('\n'):
-        lines.append('')
-    return lines
+    # Only \n ends a line in the grammar; str.splitlines would also split on \r, \f, \x85, \u2028, etc.
+    *lines, last = s.split('\n')
+    return [line + '\n' for line in lines] + [last]
 
 
 @_registry.token_model
